@@ -361,4 +361,354 @@ theorem putChs_gs (cs : List Ch) (hw : ∀ c ∈ cs, 0 ≤ c.width) :
             · rw [if_pos (by omega), if_pos hk2]
             · rw [if_neg (by omega), if_neg hk2]
 
+/-! ## Where the counter stops -/
+
+theorem within_limitColumns (L : Int) (p : StrPos) (h : p.columns ≤ L) : Within (limitColumns L) p := by
+  unfold Within limitColumns; exact ⟨Or.inl rfl, Or.inr h⟩
+
+/-- The counter with a column limit `L ≥ 0`: the consumed prefix stays within `L`; what follows is nothing, or a
+    character of width > 0 that does not fit. -/
+theorem col_limit_props (cs : List Ch) (hw : ∀ c ∈ cs, 0 ≤ c.width) (p : StrPos) (L : Int) (hL : 0 ≤ L)
+    (hp : p.columns ≤ L) :
+    p.columns + chCols (cs.take (prefixLen (limitColumns L) p cs)) ≤ L ∧
+    BaseHead (cs.drop (prefixLen (limitColumns L) p cs)) ∧
+    (∀ b rest, cs.drop (prefixLen (limitColumns L) p cs) = b :: rest →
+      p.columns + chCols (cs.take (prefixLen (limitColumns L) p cs)) + b.width > L) := by
+  obtain ⟨h1, h2⟩ := prefix_props (limitColumns L) cs p (within_limitColumns L p hp) hw
+  have e1 : (limitColumns L).graphemes = -1 := rfl
+  have e2 : (limitColumns L).columns = L := rfl
+  have hcols : (advance p (cs.take (prefixLen (limitColumns L) p cs))).columns =
+      p.columns + chCols (cs.take (prefixLen (limitColumns L) p cs)) := advance_columns _ _
+  refine ⟨?_, ?_, ?_⟩
+  · unfold Within at h1
+    rw [e2, hcols] at h1
+    cases h1.2 with
+    | inl h => omega
+    | inr h => exact h
+  · intro b rest hb
+    cases h2 with
+    | inl h => rw [h] at hb; cases hb
+    | inr h =>
+      obtain ⟨b', rest', hb', _, hpos⟩ := h
+      rw [hb'] at hb
+      cases hb
+      exact hpos
+  · intro b rest hb
+    cases h2 with
+    | inl h => rw [h] at hb; cases hb
+    | inr h =>
+      obtain ⟨b', rest', hb', hst, _⟩ := h
+      rw [hb'] at hb
+      cases hb
+      unfold stops at hst
+      rw [e1, e2, hcols] at hst
+      simp only [ne_eq, not_true_eq_false, decide_false, Bool.false_and, Bool.false_or, Bool.and_eq_true,
+        decide_eq_true_eq] at hst
+      exact hst.2
+
+/-- The number of leading zero-width characters. -/
+def zlen : List Ch → Nat
+  | [] => 0
+  | c :: cs => if c.width > 0 then 0 else 1 + zlen cs
+
+theorem zlen_props (cs : List Ch) (hw : ∀ c ∈ cs, 0 ≤ c.width) :
+    chCols (cs.take (zlen cs)) = 0 ∧ BaseHead (cs.drop (zlen cs)) ∧ zlen cs ≤ cs.length := by
+  induction cs with
+  | nil => exact ⟨rfl, fun b rest h => by simp at h, by simp [zlen]⟩
+  | cons c cs ih =>
+    have hc := hw c (by simp)
+    obtain ⟨i1, i2, i3⟩ := ih (fun c' h => hw c' (by simp [h]))
+    unfold zlen
+    by_cases hp : c.width > 0
+    · rw [if_pos hp]
+      refine ⟨rfl, ?_, by simp⟩
+      intro b rest h
+      simp only [List.drop_zero, List.cons.injEq] at h
+      rw [← h.1]; exact hp
+    · rw [if_neg hp, show 1 + zlen cs = zlen cs + 1 by omega]
+      simp only [List.take_succ_cons, List.drop_succ_cons, chCols, List.length_cons]
+      exact ⟨by omega, i2, by omega⟩
+
+/-- At the grapheme limit the counter consumes exactly the zero-width characters. -/
+theorem prefixLen_at_glimit (G : Int) (hG : G ≠ -1) : ∀ (cs : List Ch) (p : StrPos), p.graphemes = G →
+    prefixLen (limitGraphemes G) p cs = zlen cs := by
+  intro cs
+  induction cs with
+  | nil => intro p _; rfl
+  | cons c cs ih =>
+    intro p hp
+    have e1 : (limitGraphemes G).graphemes = G := rfl
+    have e2 : (limitGraphemes G).columns = -1 := rfl
+    by_cases hw : c.width > 0
+    · have hst : stops (limitGraphemes G) p c = true := by
+        unfold stops isG
+        rw [e1, e2, if_pos hw]
+        simp only [ne_eq, hG, not_false_eq_true, decide_true, Bool.true_and, not_true_eq_false, decide_false,
+          Bool.false_and, Bool.or_false, decide_eq_true_eq]
+        omega
+      simp only [prefixLen, zlen, hst, if_true, if_pos hw]
+    · have hst : stops (limitGraphemes G) p c = false := by
+        unfold stops isG
+        rw [e1, e2, if_neg hw]
+        simp only [ne_eq, not_true_eq_false, decide_false, Bool.false_and, Bool.or_false, Bool.and_eq_false_imp,
+          decide_eq_true_eq, decide_eq_false_iff_not]
+        intro _; omega
+      simp only [prefixLen, zlen, hst, Bool.false_eq_true, if_false, if_neg hw]
+      congr 1
+      apply ih
+      simp only [stepPos, isG, if_neg hw]
+      omega
+
+/-- The counter with the grapheme limit "one more" at a character of width > 0: that character and the zero-width
+    characters after it. -/
+theorem glimit_props (w : Ch) (rest : List Ch) (hww : w.width > 0) (p : StrPos) (hp : 0 ≤ p.graphemes) :
+    prefixLen (limitGraphemes (p.graphemes + 1)) p (w :: rest) = 1 + zlen rest := by
+  have hG : p.graphemes + 1 ≠ -1 := by omega
+  have e1 : (limitGraphemes (p.graphemes + 1)).graphemes = p.graphemes + 1 := rfl
+  have e2 : (limitGraphemes (p.graphemes + 1)).columns = -1 := rfl
+  have hst : stops (limitGraphemes (p.graphemes + 1)) p w = false := by
+    unfold stops isG
+    rw [e1, e2, if_pos hww]
+    simp only [ne_eq, not_true_eq_false, decide_false, Bool.false_and, Bool.or_false, Bool.and_eq_false_imp,
+      decide_eq_true_eq, decide_eq_false_iff_not]
+    intro _; omega
+  simp only [prefixLen, hst, Bool.false_eq_true, if_false]
+  congr 1
+  apply prefixLen_at_glimit _ hG
+  simp only [stepPos, isG, if_pos hww]
+
+/-! ## The head grapheme -/
+
+/-- Whatever follows, the grapheme under construction occupies its columns. -/
+theorem colGlyph_head (cs : List Ch) : ∀ (g : Grapheme) (c k : Int), c ≤ k → k < c + g.width →
+    ∃ gl, colGlyph (graphemesAux cs (some g)) c k = some (gl, c, g.width) := by
+  induction cs with
+  | nil =>
+    intro g c k h1 h2
+    exact ⟨_, colGlyph_cons_first g [] c k h1 h2⟩
+  | cons a cs ih =>
+    intro g c k h1 h2
+    by_cases ha : a.width = 0
+    · rw [graphemesAux_cons_zero _ _ _ ha]
+      exact ih _ c k h1 h2
+    · rw [graphemesAux_cons_base _ _ _ ha]
+      exact ⟨_, colGlyph_cons_first g _ c k h1 h2⟩
+
+theorem graphemesAux_base_none (b : Ch) (cs : List Ch) (hb : b.width > 0) :
+    graphemesAux (b :: cs) none = graphemesAux cs (some ⟨b.bytes, b.width⟩) := by
+  rw [graphemesAux_cons_base _ _ _ (by omega)]; rfl
+
+/-! ## Splitting a text at a grapheme boundary -/
+
+theorem chCols_append (a b : List Ch) : chCols (a ++ b) = chCols a + chCols b := by
+  induction a with
+  | nil => simp [chCols]
+  | cons c a ih => simp only [List.cons_append, chCols, ih]; omega
+
+theorem chCols_take_drop (cs : List Ch) (k : Nat) : chCols cs = chCols (cs.take k) + chCols (cs.drop k) := by
+  rw [← chCols_append, List.take_append_drop]
+
+theorem advance_graphemes_nonneg (cs : List Ch) : ∀ p : StrPos, 0 ≤ p.graphemes → 0 ≤ (advance p cs).graphemes := by
+  induction cs with
+  | nil => intro p h; exact h
+  | cons c cs ih =>
+    intro p h
+    simp only [advance]
+    apply ih
+    simp only [stepPos, isG]
+    split <;> omega
+
+theorem widths_take {cs : List Ch} (hw : ∀ c ∈ cs, 0 ≤ c.width) (k : Nat) : ∀ c ∈ cs.take k, 0 ≤ c.width :=
+  fun c h => hw c (List.mem_of_mem_take h)
+
+theorem widths_drop {cs : List Ch} (hw : ∀ c ∈ cs, 0 ≤ c.width) (k : Nat) : ∀ c ∈ cs.drop k, 0 ≤ c.width :=
+  fun c h => hw c (List.mem_of_mem_drop h)
+
+/-- The columns of a text split at a grapheme boundary: left part, then right part. -/
+theorem split_colGlyph (cs : List Ch) (hw : ∀ c ∈ cs, 0 ≤ c.width) (k : Nat) (hb : BaseHead (cs.drop k))
+    (q : Int) (h0 : 0 ≤ q) :
+    colGlyph (graphemesAux cs none) 0 q =
+      if q < chCols (cs.take k) then colGlyph (graphemesAux (cs.take k) none) 0 q
+      else colGlyph (graphemesAux (cs.drop k) none) (chCols (cs.take k)) q := by
+  have h1 : graphemesAux cs none = graphemesAux (cs.take k) none ++ graphemesAux (cs.drop k) none := by
+    rw [← graphemesAux_append _ _ hb, List.take_append_drop]
+  have hpos : ∀ g ∈ graphemesAux (cs.take k) none, 1 ≤ g.width :=
+    graphemesAux_width_pos _ (widths_take hw k) none (by simp)
+  have hg : gCols (graphemesAux (cs.take k) none) = chCols (cs.take k) := by
+    rw [gCols_graphemesAux]; simp [gCols]
+  rw [h1, colGlyph_append _ _ hpos 0 q h0, hg, Int.zero_add]
+
+/-! ## Where the slice of a TEXT run starts and ends -/
+
+theorem zero_columns : ({} : StrPos).columns = 0 := rfl
+theorem zero_graphemes : ({} : StrPos).graphemes = 0 := rfl
+
+theorem widths_nonneg_of_012 {cs : List Ch} (h : ∀ c ∈ cs, c.width = 0 ∨ c.width = 1 ∨ c.width = 2) :
+    ∀ c ∈ cs, 0 ≤ c.width := fun c hc => by have := h c hc; omega
+
+/-- `start` of the (repaired) TEXT case: the end of the characters that lie before column `offs`, stepping over a
+    double-width character that straddles it. -/
+theorem text_start_split (cell : Cell) (cs : List Ch) (hdec : decode cell.text = some cs)
+    (hw : ∀ c ∈ cs, c.width = 0 ∨ c.width = 1 ∨ c.width = 2)
+    (h0 : 0 ≤ cell.offs) (hn : 1 ≤ cell.cols) (htot : cell.offs + cell.cols ≤ chCols cs) :
+    ∃ ks, ks ≤ cs.length ∧ textStart cell = advance {} (cs.take ks) ∧ BaseHead (cs.drop ks) ∧
+      (chCols (cs.take ks) = cell.offs ∨
+       (chCols (cs.take ks) = cell.offs + 1 ∧
+        ∃ gl, colGlyph (graphemesAux cs none) 0 cell.offs = some (gl, cell.offs - 1, 2))) := by
+  have hw0 := widths_nonneg_of_012 hw
+  -- the first count: column limit `offs`
+  have hs0 := ncountmore_spec cell.text cs hdec (limitColumns cell.offs) rfl rfl 0 (by omega)
+    (within_limitColumns _ _ (by simpa [advance, zero_columns] using h0))
+  simp only [List.take_zero, advance, List.drop_zero] at hs0
+  obtain ⟨c1, c2, c3⟩ := col_limit_props cs hw0 {} cell.offs h0 (by rw [zero_columns]; exact h0)
+  rw [zero_columns, Int.zero_add] at c1 c3
+  generalize hk0 : prefixLen (limitColumns cell.offs) {} cs = k0 at hs0 c1 c2 c3
+  have hk0le : k0 ≤ cs.length ∨ cs.length < k0 := by omega
+  have hs0c : (advance {} (cs.take k0)).columns = chCols (cs.take k0) := by
+    rw [advance_columns, zero_columns, Int.zero_add]
+  unfold textStart
+  have hts0 : textStart0 cell = advance {} (cs.take k0) := hs0
+  simp only [hts0, hs0c]
+  by_cases hlt : chCols (cs.take k0) < cell.offs
+  · -- a double-width character straddles column `offs`
+    rw [if_pos hlt]
+    have hsplit := chCols_take_drop cs k0
+    have hne : cs.drop k0 ≠ [] := by
+      intro he
+      rw [he] at hsplit
+      simp only [chCols] at hsplit
+      omega
+    obtain ⟨w, rest, hwr⟩ := List.exists_cons_of_ne_nil hne
+    have hwpos := c2 w rest hwr
+    have hwfit := c3 w rest hwr
+    have hwmem : w ∈ cs := List.mem_of_mem_drop (by rw [hwr]; simp)
+    have hw2 : w.width = 2 ∧ chCols (cs.take k0) = cell.offs - 1 := by
+      have := hw w hwmem; omega
+    have hk0' : k0 < cs.length := by
+      by_cases h : k0 < cs.length
+      · exact h
+      · exfalso; exact hne (List.drop_eq_nil_of_le (by omega))
+    have hg0 : 0 ≤ (advance {} (cs.take k0)).graphemes := advance_graphemes_nonneg _ _ (by rw [zero_graphemes]; omega)
+    have hwithin : Within (limitGraphemes ((advance {} (cs.take k0)).graphemes + 1)) (advance {} (cs.take k0)) := by
+      unfold Within limitGraphemes; exact ⟨Or.inr (by simp only; omega), Or.inl rfl⟩
+    have hs1 := ncountmore_spec cell.text cs hdec (limitGraphemes ((advance {} (cs.take k0)).graphemes + 1)) rfl rfl
+      k0 (by omega) hwithin
+    rw [hs1, hwr, glimit_props w rest hwpos _ hg0]
+    have hrest0 : ∀ c ∈ rest, 0 ≤ c.width := fun c hc => hw0 c (List.mem_of_mem_drop (by rw [hwr]; simp [hc]))
+    obtain ⟨z1, z2, z3⟩ := zlen_props rest hrest0
+    refine ⟨k0 + (1 + zlen rest), ?_, ?_, ?_, Or.inr ⟨?_, ?_⟩⟩
+    · have : (cs.drop k0).length = cs.length - k0 := List.length_drop
+      rw [hwr] at this
+      simp only [List.length_cons] at this
+      omega
+    · rw [← advance_append]
+      conv => rhs; rw [List.take_add, hwr]
+    · rw [← List.drop_drop, hwr, show 1 + zlen rest = zlen rest + 1 by omega, List.drop_succ_cons]
+      exact z2
+    · rw [List.take_add, chCols_append, hwr, show 1 + zlen rest = zlen rest + 1 by omega, List.take_succ_cons]
+      simp only [chCols]
+      omega
+    · rw [split_colGlyph cs hw0 k0 c2 cell.offs h0, if_neg (by omega), hwr, graphemesAux_base_none w rest hwpos,
+        hw2.2]
+      obtain ⟨gl, hgl⟩ := colGlyph_head rest ⟨w.bytes, w.width⟩ (cell.offs - 1) cell.offs (by omega)
+        (by simp only; omega)
+      refine ⟨gl, ?_⟩
+      rw [hgl]
+      simp only [hw2.1]
+  · rw [if_neg hlt]
+    have hk0' : k0 ≤ cs.length ∨ cs.take k0 = cs := by
+      by_cases h : k0 ≤ cs.length
+      · exact Or.inl h
+      · exact Or.inr (List.take_of_length_le (by omega))
+    cases hk0' with
+    | inl h => exact ⟨k0, h, rfl, c2, Or.inl (by omega)⟩
+    | inr h =>
+      refine ⟨cs.length, by omega, by rw [List.take_length, h], ?_, Or.inl ?_⟩
+      · intro b rest hb; simp at hb
+      · rw [List.take_length]; rw [h] at c1 hlt; omega
+
+/-- `end` of the (repaired) TEXT case: the end of the characters that lie before column `offs + cols`; a double-width
+    character may straddle that column. -/
+theorem text_end_split (cell : Cell) (cs : List Ch) (hdec : decode cell.text = some cs)
+    (hw : ∀ c ∈ cs, c.width = 0 ∨ c.width = 1 ∨ c.width = 2)
+    (h0 : 0 ≤ cell.offs) (hn : 1 ≤ cell.cols) (htot : cell.offs + cell.cols ≤ chCols cs)
+    (ks : Nat) (hks : ks ≤ cs.length) (hstart : textStart cell = advance {} (cs.take ks))
+    (hbs : BaseHead (cs.drop ks))
+    (hsc : chCols (cs.take ks) = cell.offs ∨ chCols (cs.take ks) = cell.offs + 1) :
+    ∃ ke, ks ≤ ke ∧ ke ≤ cs.length ∧ textEnd cell = advance {} (cs.take ke) ∧ BaseHead (cs.drop ke) ∧
+      chCols (cs.take ke) = chCols (cs.take ks) + chCols ((cs.drop ks).take (ke - ks)) ∧
+      (chCols (cs.take ke) = cell.offs + cell.cols ∨
+       (chCols (cs.take ke) = cell.offs + cell.cols - 1 ∧
+        ∃ gl, colGlyph (graphemesAux cs none) 0 (cell.offs + cell.cols - 1) =
+          some (gl, cell.offs + cell.cols - 1, 2))) := by
+  have hw0 := widths_nonneg_of_012 hw
+  have hscol : (advance {} (cs.take ks)).columns = chCols (cs.take ks) := by
+    rw [advance_columns, zero_columns, Int.zero_add]
+  unfold textEnd
+  simp only [hstart, hscol]
+  by_cases hlt : chCols (cs.take ks) < cell.offs + cell.cols
+  · rw [if_pos hlt]
+    have hwithin : Within (limitColumns (cell.offs + cell.cols)) (advance {} (cs.take ks)) :=
+      within_limitColumns _ _ (by rw [hscol]; omega)
+    have he := ncountmore_spec cell.text cs hdec (limitColumns (cell.offs + cell.cols)) rfl rfl ks hks hwithin
+    obtain ⟨c1, c2, c3⟩ := col_limit_props (cs.drop ks) (widths_drop hw0 ks) (advance {} (cs.take ks))
+      (cell.offs + cell.cols) (by omega) (by rw [hscol]; omega)
+    rw [hscol] at c1 c3
+    generalize hkm : prefixLen (limitColumns (cell.offs + cell.cols)) (advance {} (cs.take ks)) (cs.drop ks) = km
+      at he c1 c2 c3
+    -- clamp `km` to the length of the rest
+    have hdl : (cs.drop ks).length = cs.length - ks := List.length_drop
+    by_cases hkm' : km ≤ cs.length - ks
+    · refine ⟨ks + km, by omega, by omega, ?_, ?_, ?_, ?_⟩
+      · rw [he, ← advance_append, List.take_add]
+      · rw [← List.drop_drop]; exact c2
+      · rw [List.take_add, chCols_append, show ks + km - ks = km by omega]
+      · have hcke : chCols (cs.take (ks + km)) = chCols (cs.take ks) + chCols ((cs.drop ks).take km) := by
+          rw [List.take_add, chCols_append]
+        by_cases hfull : chCols (cs.take (ks + km)) = cell.offs + cell.cols
+        · exact Or.inl hfull
+        · right
+          have hsplit := chCols_take_drop cs (ks + km)
+          have hne : cs.drop (ks + km) ≠ [] := by
+            intro hnil
+            rw [hnil] at hsplit
+            simp only [chCols] at hsplit
+            omega
+          obtain ⟨b, rest, hbr⟩ := List.exists_cons_of_ne_nil hne
+          have hbr' : (cs.drop ks).drop km = b :: rest := by rw [List.drop_drop]; exact hbr
+          have hbpos := c2 b rest hbr'
+          have hbfit := c3 b rest hbr'
+          have hbmem : b ∈ cs := List.mem_of_mem_drop (by rw [hbr]; simp)
+          have hb2 : b.width = 2 ∧ chCols (cs.take (ks + km)) = cell.offs + cell.cols - 1 := by
+            have := hw b hbmem; omega
+          refine ⟨hb2.2, ?_⟩
+          have hbase : BaseHead (cs.drop (ks + km)) := by rw [← List.drop_drop]; exact c2
+          rw [split_colGlyph cs hw0 (ks + km) hbase _ (by omega), if_neg (by omega), hbr,
+            graphemesAux_base_none b rest hbpos, hb2.2]
+          obtain ⟨gl, hgl⟩ := colGlyph_head rest ⟨b.bytes, b.width⟩ (cell.offs + cell.cols - 1)
+            (cell.offs + cell.cols - 1) (by omega) (by simp only; omega)
+          refine ⟨gl, ?_⟩
+          rw [hgl]
+          simp only [hb2.1]
+    · -- the counter cannot consume more characters than there are
+      exfalso
+      have : prefixLen (limitColumns (cell.offs + cell.cols)) (advance {} (cs.take ks)) (cs.drop ks) ≤
+          (cs.drop ks).length := by
+        generalize (cs.drop ks) = ds
+        generalize (advance ({} : StrPos) (cs.take ks)) = p
+        induction ds generalizing p with
+        | nil => simp [prefixLen]
+        | cons d ds ih =>
+          simp only [prefixLen]
+          split
+          · omega
+          · have := ih (stepPos p d)
+            simp only [List.length_cons]; omega
+      omega
+  · rw [if_neg hlt]
+    refine ⟨ks, by omega, hks, rfl, hbs, ?_, Or.inl (by omega)⟩
+    rw [Nat.sub_self, List.take_zero]
+    simp only [chCols]
+    omega
+
 end Tickit.RBFlush
